@@ -189,11 +189,11 @@ Proof.
     destruct (r_resolve g s HR t _ _ Ea) as (HX & _ & _).
     assert (Hd : In d (g_deps g t)) by (apply (p_todor g s HP t _ _ Ea); left; reflexivity).
     left. destruct (ex s d) eqn:Ex.
-    + can_by Hx (LAsyncResolveDep t d). rewrite Ea. guards. cbn. rewrite Nat.eqb_refl. reflexivity.
+    + can_by Hx (LAsyncResolveDep t d). rewrite Ea. guards; try (cbn; rewrite Nat.eqb_refl; reflexivity). rewrite Ex. reflexivity.
     + destruct (pk s (g_pkg g d)) eqn:Pk.
       * destruct (HX d Hd) as [H|[H|H]]; [congruence | congruence | apply (ptask_can d H Hc)].
       * apply (pkg_can (g_pkg g d)); auto.
-      * can_by Hx (LAsyncResolveDep t d). rewrite Ea, Pk. guards; cbn; [rewrite Nat.eqb_refl; reflexivity | apply orb_true_r].
+      * can_by Hx (LAsyncResolveDep t d). rewrite Ea, Pk. guards; try (cbn; rewrite Nat.eqb_refl; reflexivity). cbn. apply orb_true_r.
       * apply (pkg_can (g_pkg g d)); auto.
   - destruct todo as [|d r]; [left; can_by Hx (LActivatePending t); rewrite Ea; guards|].
     destruct (fin s d) eqn:Ef; [left | right; exists d, r; auto].
